@@ -130,7 +130,14 @@ TLifeReal ==
      /\ o.evs = <<"connect", "join", "leave", "disconnect">>
      /\ o.callDone = "err" /\ o.later = "TransportLost"
      /\ (E.how = "goodbye" => o.dropped)                       \* after GOODBYE the client closes the transport itself
-TNext == TOpen \/ TRx \/ TLost \/ TApi \/ TResolve \/ TProgress \/ TInvReal \/ TLifeReal
+\* A session whose request counter stands at E.base issues E.n requests: the ids on the wire are the next E.n ids (sequential,
+\* wrapping from 2^53 to 1, never outside 1..2^53), one request message per call and of its kind, and every request completes
+\* exactly once with the reply bearing its id although the replies come in another order.
+TIdWrap ==
+  /\ IsEvent("idwrap") /\ UNCHANGED <<s, re>>
+  /\ Len(E.wires) = E.n /\ E.sameKind /\ E.once /\ E.esc = ""
+  /\ \A i \in 1..E.n : E.wires[i] = IdAfter(E.base, i) /\ IdInRange(E.wires[i]) /\ E.own[i]
+TNext == TIdWrap \/ TOpen \/ TRx \/ TLost \/ TApi \/ TResolve \/ TProgress \/ TInvReal \/ TLifeReal
 TraceSpec == TInit /\ [][TNext]_tvars
 Progress_ == TLCSet(tid, IF TLCGet(tid) < l THEN l ELSE TLCGet(tid))
 Post ==
